@@ -59,6 +59,6 @@ func VerifH_PathParameters() {
 		}
 	}
 	verifrt.Assert("C13.split.error-iff-bad", (err != nil) == bad)
-	verifrt.Reach("C13.split.two-params", len(want) >= 2 && err == nil)
+	verifrt.Reach("C13.split.accepted-param", len(want) >= 1 && err == nil)
 	verifrt.Reach("C13.split.rejected", err != nil)
 }
